@@ -187,6 +187,12 @@ func (te *TEnv) ident(name string) TV {
 		return TV{te.st.now, nil}
 	}
 	if g, ok := v.ghost(te.st, name); ok {
+		// pointer-typed ghosts keep their Go type so that fields can be selected
+		if gv := v.eng.db.Ghosts[name]; gv != nil && strings.HasPrefix(gv.Type, "*") {
+			if gt, _ := v.eng.resolveType(v.fc.Pkg, gv.Type); gt != nil {
+				return TV{g, gt}
+			}
+		}
 		return TV{g, nil}
 	}
 	if c, ok := v.eng.db.Consts[name]; ok {
